@@ -110,7 +110,10 @@ def gen_forest(rng, shape=None, siblings=True):
         units = cus[:1] + partials + cus[1:]      # partial units in the middle of the section
     if siblings:
         add_siblings(rng, units)
-    return Forest(units)
+    f = Forest(units)
+    if rng.random() < 0.3:
+        f.abbrev_decl_seed = rng.getrandbits(30)     # abbreviations declared out of code order: no view may depend on that
+    return f
 
 
 def place_import(rng, root, target_root):
